@@ -10,6 +10,11 @@ case $pkgname in
   memory|memory_test) dir=content/memory ;;
   file|file_test) dir=content/file ;;
   status|status_test) dir=internal/status ;;
+  content|content_test) dir=content ;;
+  remote|remote_test) dir=registry/remote ;;
+  auth|auth_test) dir=registry/remote/auth ;;
+  credentials|credentials_test) dir=registry/remote/credentials ;;
+  retry|retry_test) dir=registry/remote/retry ;;
   *) echo "unknown package $pkgname"; exit 2 ;;
 esac
 cp $SD/demo_test.go $WT/$dir/zz_seed_demo_test.go
